@@ -260,6 +260,16 @@ def writer_rules(ck):
         else:
             ck.ob('PROV-open-tmp', fw.loc(call), origin <= {'tmp_path', 'mode', 'args', 'kwargs'} and 'tmp_path' in origin,
                   're-opening an already deferred path opens its temporary file (`{}`)'.format(u(call)[:50]), key='PROV-open-tmp')
+            # ... and "already deferred" means the very same destination path (two names that merely look alike -- case, normalisation -- are two files)
+            lp_ = next((l for l in fw.ancestors(call) if isinstance(l, ast.For)), None)
+            same = False
+            if lp_ is not None and 'open_files' in u(lp_.iter) and isinstance(lp_.target, (ast.Tuple, ast.List)) and len(lp_.target.elts) == 3:
+                rel_ = stmts_with_env(opn, lambda s_: s_ is st, stmts=lp_.body)
+                recorded = u(lp_.target.elts[1])
+                same = len(rel_) == 1 and flow.atoms_of(rel_[0][1]) == {('Eq', *sorted([recorded, 'path']))}
+                same = same or (len(rel_) == 1 and flow.atoms_of(rel_[0][1]) in ({('Eq', recorded, 'path')}, {('Eq', 'path', recorded)}))
+                same = same and flow.equivalent(rel_[0][1], ('atom', next(iter(flow.atoms_of(rel_[0][1])))))[0]
+            ck.ob('PROV-open-tmp', fw.loc(call), same, 'a destination counts as already deferred exactly when its recorded path equals the path asked for', key='PROV-open-tmp|same-path')
     ck.ob('DT-open-destination', fw.loc(opn), nd == 1, 'exactly one site opens the destination path itself ({} found)'.format(nd), key='DT-open-destination|count')
     # destination identity: the path as named, made absolute without following a symlink in its last component
     pdefs = assignments_to(opn, 'path')
@@ -396,7 +406,9 @@ def writer_rules(ck):
     if ok:
         fa = flow.rename(disp['_append_file'][0][1], names)
         fwr = flow.rename(disp['_write_file'][0][1], names)
-        loopc = [k for k in flow.atoms_of(fa) if k[0] == 'truth']
+        # (the loop's own test -- "entries are left" -- is not part of the decision; any *other* test on the way to the finalisation is)
+        wl_tests = {u(l.test) for l in walk_local(wr) if isinstance(l, ast.While)} | {u(l.iter) for l in walk_local(wr) if isinstance(l, ast.For)}
+        loopc = [k for k in flow.atoms_of(fa) | flow.atoms_of(fwr) if k[0] == 'truth' and k[1] in wl_tests]
         fa = flow.rename(fa, {k: True for k in loopc})
         fwr = flow.rename(fwr, {k: True for k in loopc})
         e1, c1, r1 = flow.equivalent(fa, flow.parse_formula('A'))
